@@ -209,6 +209,7 @@ func checkC20(p *Prog, r *Report) {
 		})
 	}
 
+	r.Rule("C20/MODULES-FROM-CONFIG", "every rsyncd.NewServer reachable from the anonymous exec callback receives Config.Modules of the daemon's configuration unchanged", 1)
 	// ---- EXEC-ONLY-DAEMON ----
 	r.Rule("C20/EXEC-ONLY-DAEMON", "from the exec callback given to anonssh.Serve on the anonymous listener (the call site not dominated by AuthorizedSSH.Address != \"\") none of these is reachable: os/exec, net.Listen, (net.Dialer).DialContext, maincmd.Main, clientMain, rsyncMain, doCmd, socketClient, (*Server).InternalHandleConn, HandleConnArgs, (*Server).Serve, anonssh.Serve, namespace; (*Server).HandleDaemonConn must be reachable", 2)
 	nAnon := 0
@@ -279,6 +280,33 @@ func checkC20(p *Prog, r *Report) {
 					bad++
 					r.Bad("C20/EXEC-ONLY-DAEMON", funcKey(lit)+" ⇒ "+funcKey(f), p.Pos(instrPos(c)), why+" reachable from an anonymous SSH session: "+g.Chain(reach, f))
 				}
+			}
+			// the module table served to an anonymous session is the configured one
+			modsF := p.Field(pkgConfig, "Config", "Modules")
+			for f := range reach {
+				if !isModFunc(f) || f.Blocks == nil {
+					continue
+				}
+				allCalls(f, func(nc ssa.CallInstruction) {
+					if calleeName(nc) != pkgRsyncd+".NewServer" {
+						return
+					}
+					arg := nc.Common().Args[0]
+					okMods := false
+					if base, fld := loadedField(arg); fld == modsF && modsF != nil {
+						okMods = true
+						for _, leaf := range phiLeaves(base) {
+							if _, isP := leaf.(*ssa.Parameter); isP {
+								continue
+							}
+							if ec, idx := extractOf(leaf); ec != nil && idx == 0 && strings.HasPrefix(calleeName(ec), pkgConfig+".From") {
+								continue
+							}
+							okMods = false
+						}
+					}
+					r.Cond(okMods, "C20/MODULES-FROM-CONFIG", funcKey(f)+" → rsyncd.NewServer(modules)", p.Pos(instrPos(nc)), "on the anonymous path the module table must be exactly Config.Modules of the configuration (not extended from options parsed from the peer's command line)")
+				})
 			}
 			r.Cond(sawDaemon, "C20/EXEC-ONLY-DAEMON", funcKey(lit)+" reaches HandleDaemonConn", p.Pos(instrPos(c)), "the anonymous session must be able to speak the daemon protocol")
 			if bad == 0 {
